@@ -148,5 +148,17 @@ def mixed_case(draw, tier, ne_share=3, families=base.FAMILIES4, config_kw=None, 
 def maybe_decoy(draw, case, share=3):
     """With probability ~share/10 add a second, different trace on the same map that is matched first on the same matcher."""
     if gen.chance(draw, share):
-        case["decoy"] = draw(gen.trace_on(case["graph"], min_len=1, max_len=max(2, len(case["trace"]) + 1)))
+        if draw(st.booleans()) and len(case["trace"]) >= 2:
+            # the same trace with another beginning: later observations (and with them the keys of the lattice) coincide, the
+            # chains that reach them do not
+            loc, _adj = gen.model_of(case["graph"])
+            nodes = list(loc)
+            k = draw(st.integers(1, min(2, len(case["trace"]) - 1)))
+            head = []
+            for _ in range(k):
+                p = loc[gen.pick(draw, nodes)]
+                head.append([p[0] + draw(st.integers(-20, 20)) / 100.0, p[1] + draw(st.integers(-20, 20)) / 100.0])
+            case["decoy"] = head + [list(p[:2]) for p in case["trace"][k:]]
+        else:
+            case["decoy"] = draw(gen.trace_on(case["graph"], min_len=1, max_len=max(2, len(case["trace"]) + 1)))
     return case
